@@ -41,13 +41,16 @@ type callRef struct {
 	idx    int    // result index; -1 for called(f)
 	dynFn  string // lowered function returning the function value (dynamic callees)
 	dynT   string // its term, filled in when the clause is evaluated
+	last   bool   // last_result_of: the latest call on the path, not the earliest
 }
+
+const lastCallBias = 1000
 
 // extractCallRefs replaces result_of(f[, i]) and called(f) by gocvcall_<n> and returns the references (callee still as source text).
 func extractCallRefs(s string) (string, []string, []int) {
 	var exprs []string
 	var idxs []int
-	for _, w := range []string{"result_of(", "called("} {
+	for _, w := range []string{"last_result_of(", "result_of(", "called("} {
 		for {
 			i := findWord(s, w)
 			if i < 0 {
@@ -75,6 +78,9 @@ func extractCallRefs(s string) (string, []string, []int) {
 			} else if a, b, ok := splitTop(arg, ","); ok {
 				arg = strings.TrimSpace(a)
 				fmt.Sscanf(strings.TrimSpace(b), "%d", &idx)
+			}
+			if w == "last_result_of(" {
+				idx += lastCallBias // the latest such call on the path instead of the earliest
 			}
 			exprs = append(exprs, strings.TrimSpace(arg))
 			idxs = append(idxs, idx)
@@ -180,9 +186,13 @@ func parseContractText(text, path, pkgPath string) ([]*FuncContract, error) {
 			last = nil
 		case cur == nil:
 			return nil, fmt.Errorf("%s:%d: clause before any `func`", path, n+1)
-		case strings.HasPrefix(word, "effect"):
-			label := strings.TrimSuffix(strings.TrimPrefix(strings.TrimPrefix(word, "effect"), "["), "]")
-			ec := &EffectClause{Label: label, Line: n + 1}
+		case strings.HasPrefix(word, "effect"), strings.HasPrefix(word, "history"):
+			kw := "effect"
+			if strings.HasPrefix(word, "history") {
+				kw = "history"
+			}
+			label := strings.TrimSuffix(strings.TrimPrefix(strings.TrimPrefix(word, kw), "["), "]")
+			ec := &EffectClause{Label: label, Line: n + 1, History: kw == "history"}
 			cur.EffectCl = append(cur.EffectCl, ec)
 			cur.Clauses = append(cur.Clauses, Clause{Kind: "effect", Label: label, Expr: rest, Line: n + 1})
 			last = &cur.Clauses[len(cur.Clauses)-1]
@@ -316,6 +326,14 @@ func splitTop(s, op string) (string, string, bool) {
 // lowerExpr rewrites the contract dialect (==>, forall, exists) into plain Go.
 func lowerExpr(s string) (string, error) {
 	s = strings.TrimSpace(s)
+	// same(a, b): a and b are one and the same map / pointer / slice (identity, not contents)
+	for {
+		i := findWord(s, "same(")
+		if i < 0 {
+			break
+		}
+		s = s[:i] + "vqSame(" + s[i+5:]
+	}
 	// quantifiers: forall k :: lo <= k && k < hi ==> P      exists k :: lo <= k && k < hi && P
 	for _, q := range []string{"forall", "exists"} {
 		if strings.HasPrefix(s, q+" ") {
@@ -680,6 +698,35 @@ func safeName(s string) string {
 }
 
 // rangeKeys lists the key variables of range statements over slices in node (their value at the loop head is the iteration count).
+// rangedType gives the type of the expression the ord-th loop of body (source order, closures excluded) ranges over;
+// nil when that loop is not a range over a slice.
+func rangedType(pkg *packages.Package, body ast.Node, ord int) types.Type {
+	if body == nil {
+		return nil
+	}
+	n := 0
+	var out types.Type
+	ast.Inspect(body, func(x ast.Node) bool {
+		switch l := x.(type) {
+		case *ast.FuncLit:
+			return false
+		case *ast.ForStmt:
+			n++
+		case *ast.RangeStmt:
+			if n == ord {
+				if t := pkg.TypesInfo.TypeOf(l.X); t != nil {
+					if _, ok := t.Underlying().(*types.Slice); ok {
+						out = t
+					}
+				}
+			}
+			n++
+		}
+		return true
+	})
+	return out
+}
+
 func rangeKeys(node ast.Node) map[string]bool {
 	out := map[string]bool{}
 	ast.Inspect(node, func(n ast.Node) bool {
@@ -860,6 +907,19 @@ func generateOverlay(pkg *packages.Package, contracts []*FuncContract, regions [
 			expr, olds := c.Expr, []string(nil)
 			var callExprs []string
 			var callIdx []int
+			// range__ names the slice a range loop iterates over (evaluated once, before the loop)
+			delete(lc.vars, "range__")
+			if c.Kind == "invariant" {
+				var body ast.Node
+				if lit != nil {
+					body = lit.Body
+				} else if fd != nil {
+					body = fd.Body
+				}
+				if t := rangedType(pkg, body, c.Loop); t != nil {
+					lc.vars["range__"] = t
+				}
+			}
 			if c.Kind == "ensures" {
 				expr, olds = extractOlds(expr)
 				expr, callExprs, callIdx = extractCallRefs(expr)
@@ -919,11 +979,15 @@ func generateOverlay(pkg *packages.Package, contracts []*FuncContract, regions [
 					if err != nil {
 						return "", fmt.Errorf("%s:%d: result_of(%s): %v", fc.File, c.Line, ce, err)
 					}
+					lastCall := callIdx[i] >= lastCallBias
+					if lastCall {
+						callIdx[i] -= lastCallBias
+					}
 					full, rt, err := lc.calleeInfo(cex, fd, lit, callIdx[i])
 					if err != nil {
 						return "", fmt.Errorf("%s:%d: result_of(%s): %v", fc.File, c.Line, ce, err)
 					}
-					cr := callRef{callee: full, idx: callIdx[i]}
+					cr := callRef{callee: full, idx: callIdx[i], last: lastCall}
 					if full == "<dynamic>" {
 						cr.dynFn = fmt.Sprintf("verif_callref_%s_%d_%s", label, i, base)
 						dn := lc.usedNames(cex)
@@ -1083,6 +1147,10 @@ func generateOverlay(pkg *packages.Package, contracts []*FuncContract, regions [
 			}
 		}
 	}
+	needSame := strings.Contains(body.String(), "vqSame(") && pkg.Types.Scope().Lookup("vqSame") == nil
+	if needSame {
+		g.imports["fmt"] = "fmt"
+	}
 	var paths []string
 	for p := range g.imports {
 		paths = append(paths, p)
@@ -1098,6 +1166,9 @@ func generateOverlay(pkg *packages.Package, contracts []*FuncContract, regions [
 	if pkg.Types.Scope().Lookup("vqForall") == nil {
 		sb.WriteString("func vqForall(lo int, hi int, f func(int) bool) bool {\n\tfor i := lo; i < hi; i++ {\n\t\tif !f(i) {\n\t\t\treturn false\n\t\t}\n\t}\n\treturn true\n}\n\n")
 		sb.WriteString("func vqExists(lo int, hi int, f func(int) bool) bool {\n\tfor i := lo; i < hi; i++ {\n\t\tif f(i) {\n\t\t\treturn true\n\t\t}\n\t}\n\treturn false\n}\n\n")
+	}
+	if needSame {
+		sb.WriteString("func vqSame[T any](a, b T) bool {\n\treturn fmt.Sprintf(\"%p\", any(a)) == fmt.Sprintf(\"%p\", any(b))\n}\n\n")
 	}
 	sb.WriteString(body.String())
 	return sb.String(), nil
